@@ -185,6 +185,9 @@ def field(got, name):
 
 def match(got, exp, path, out):
     """appends (path, condition) for every leaf; a structural mismatch appends (path, False)"""
+    from specs.tlbdecode import WILD
+    if exp is WILD:
+        return
     if exp is None:
         out.append((path, got is None))
         return
@@ -502,6 +505,84 @@ def h_mainnet_block(ctx):
     ctx.require(not bad, 'main-net block header fields equal the independent reading ' + str(bad))
     ctx.require(blk.global_id == _Reader(found).skip(32).i(32), 'main-net block global_id')
     ctx.observe('seqno', want['seqno'])
+    # --- the rest of the block, read by the independent schema-driven decoder (specs/tlbdecode.py)
+    from specs import tlbdecode as TD
+    out = []
+    match(blk.value_flow, TD.dec_type('ValueFlow', TD.Rd(found.refs[1])), 'Block.value_flow', out)
+    ex = TD.Rd(found.refs[3])
+    ctx.require(ex.u(32) == 0x4a33f6fd, 'main-net block: block_extra tag')
+    counts = {}
+
+    def aug_e(cell, n, leaf, aug):
+        r = TD.Rd(cell)
+        if r.u(1) == 0:
+            return {}, []
+        return TD.hashmap(r.ref(), n, leaf, '', aug)
+
+    def cmp_dict(got, want_pair, leaf_match, path):
+        d, xs = want_pair
+        ok = isinstance(got, tuple) and len(got) == 2 and isinstance(got[0], dict) and sorted(got[0]) == sorted(d)
+        out.append((path + '.keys', ok))
+        if not ok:
+            return
+        for k, e in d.items():
+            leaf_match(got[0][k], e, f'{path}[]')
+        if d:
+            out.append((path + '.extras', len(got[1]) == len(xs)))
+            if len(got[1]) == len(xs):
+                for g, e in zip(got[1], xs):
+                    match(g, e, f'{path}.extra[]', out)
+        counts[path] = len(d)
+    ins = aug_e(ex.ref(), 256, lambda r: TD.dec_type('InMsg', r), lambda r: TD.dec_type('ImportFees', r))
+    cmp_dict(blk.extra.in_msg_descr, ins, lambda g, e, p: match(g, e, p, out), 'Block.extra.in_msg_descr')
+    outs = aug_e(ex.ref(), 256, lambda r: TD.dec_type('OutMsg', r), TD.dec_cc)
+    cmp_dict(blk.extra.out_msg_descr, outs, lambda g, e, p: match(g, e, p, out), 'Block.extra.out_msg_descr')
+
+    def acc_block(r):
+        if r.u(4) != 5:
+            raise TD.DecodeError('acc_trans tag')
+        addr = int(r.take(256), 2).to_bytes(32, 'big')
+        trs = TD.hashmap(r, 64, lambda x: TD.dec_type('Transaction', TD.Rd(x.ref())), '', TD.dec_cc)
+        hu = TD.dec_type('HashUpdate', TD.Rd(r.ref()))
+        return addr, trs, hu
+
+    def acc_match(g, e, p):
+        addr, trs, hu = e
+        out.append((p + '.account_addr', field(g, 'account_addr') == addr.hex()))
+        cmp_dict(field(g, 'transactions'), trs, lambda gg, ee, pp: match(gg, ee, pp, out), p + '.transactions')
+        match(field(g, 'state_update'), hu, p + '.state_update', out)
+    accs = aug_e(ex.ref(), 256, acc_block, TD.dec_cc)
+    cmp_dict(blk.extra.account_blocks, accs, acc_match, 'Block.extra.account_blocks')
+    rs, cb = int(ex.take(256), 2).to_bytes(32, 'big'), int(ex.take(256), 2).to_bytes(32, 'big')
+    out.append(('Block.extra.rand_seed', blk.extra.rand_seed in (rs, rs.hex())))
+    out.append(('Block.extra.created_by', blk.extra.created_by in (cb, cb.hex())))
+    if ex.u(1):
+        mc = TD.Rd(ex.ref())
+        ctx.require(mc.u(16) == 0xcca5, 'main-net block: masterchain_block_extra tag')
+        out.append(('Block.extra.custom.key_block', blk.extra.custom.key_block == mc.u(1)))
+
+        def bintree(r):
+            if r.u(1) == 0:
+                return [TD.dec_type('ShardDescr', r)]
+            return bintree(TD.Rd(r.ref())) + bintree(TD.Rd(r.ref()))
+        sh = {}
+        if mc.u(1):
+            sh, _ = TD.hashmap(mc.ref(), 32, lambda r: bintree(TD.Rd(r.ref())))
+        got_sh = blk.extra.custom.shard_hashes or {}
+        out.append(('Block.extra.custom.shard_hashes.keys', sorted(got_sh) == sorted(sh)))
+        if sorted(got_sh) == sorted(sh):
+            for wc, leaves in sh.items():
+                lst = got_sh[wc].list
+                out.append(('Block.extra.custom.shard_hashes[].n', len(lst) == len(leaves)))
+                for g, e in zip(lst, leaves):
+                    match(g, e, 'Block.extra.custom.shard_hashes[].leaf', out)
+        counts['shards'] = sum(len(v) for v in sh.values())
+    else:
+        out.append(('Block.extra.custom', blk.extra.custom is None))
+    bad = sorted({_gen_path(p) for p, c in out if not (c if isinstance(c, bool) else bool(c))})
+    ctx.require(not bad, 'main-net block: every field the library returns equals the independent reading ' + str(bad[:8]))
+    ctx.require(len(out) > 200, 'main-net block: the comparison covers the block body')
+    ctx.observe('compared', [len(out), counts])
 
 
 class _Reader:
@@ -620,7 +701,7 @@ BOUNDS = {
                   'ShardState (split or not, 0..2 accounts, master_ref, custom), Block; dictionary keys concrete, all leaf values symbolic',
     'remainder': 'a 5-bit symbolic tail and one surplus reference are appended: the parser must leave exactly those',
 }
-OUTSIDE = ['OutMsgQueueInfo, LibDescr, ShardFees entries beyond their cell, ConfigParam values (kept as cells by the library)', 'the bundled main-net block beyond its header and global id',
+OUTSIDE = ['OutMsgQueueInfo, LibDescr, ShardFees entries beyond their cell, ConfigParam values (kept as cells by the library)', 'messages, state-inits and out-message dictionaries inside the bundled main-net block (compared as opaque; C15 decides the message parser)',
            'messages other than a small external-in one inside transactions (C15 decides the message parser)']
 STUBS = ['hashlib.sha256: injective uninterpreted function']
 ASSUMPTIONS = ['specs/tlbschema.py transcribes block.tlb (constructor names and tags linted against the repository copy)']
